@@ -384,6 +384,14 @@ def run(rep: Report, tier: str) -> None:
     rep.rule("R01.11", "an Integer operand handed over in an exact integer column is loaded without passing through a binary float (64-bit integers beyond 2**53 keep their value)")
     from sa.checks.c18 import integer_carrier_exact as _ice
     _ice(P, rep, "R01.11")
+    # ---- R01.12: isnull returns its measure (shared with C10 R10.13) ----
+    rep.rule("R01.12", "isnull over a dataset with one measure: measure name declared by Unary.validate == alias delivered by visit_UnaryOp, per measure type")
+    from sa.checks.c10 import isnull_measure_name_agrees as _imn
+    _imn(P, rep, "R01.12")
+    # ---- R01.13: a dataset-level sub-expression delivers its measure under the name its enclosing operator expects ----
+    rep.rule("R01.13", "nested dataset-level operators (DS + DS under a comparison, DS > scalar under not): alias delivered by the sub-expression's SELECT == measure name of the structure "
+                       "resolved for it (statement output named differently)")
+    intermediate_measure_names(P, rep, "R01.13")
     rep.assumptions = ["DuckDB scalar functions and arithmetic/comparison operators return NULL on a NULL argument; COALESCE/IS NULL/AND/OR/CASE "
                        "follow SQL semantics; error() never returns", "VTL semantics encoded in the checker: null propagation for the listed "
                        "operator classes, Kleene tables for and/or, null-strict xor/not"]
@@ -430,3 +438,53 @@ def _ds_scalar_division(P: Program, rep: Report) -> None:
                                 f"{'DS_1 / ' + scalar if ds_on_left else scalar + ' / DS_1'}: each measure is computed as `{expr}` instead of `{want}` (the registry's zero-checking division): "
                                 f"a divisor that is a column (or 0) no longer raises RunTimeError 2-1-15-6 for a zero value - the datapoint comes back as inf / NULL"))
     rep.floor("R01.7 dataset-scalar divisions evaluated", n, 12)
+
+
+def intermediate_measure_names(P: Program, rep: Report, rule: str) -> None:
+    """A dataset-level operation that is the OPERAND of another one (so the statement's output structure is not its own): the name under which
+    its SELECT delivers the single measure == the measure name of the structure the enclosing operator resolves for it.  Evaluated for
+    DS + DS and DS > scalar on mono-measure operands inside a statement whose result measure is called differently (bool_var): both the SQL
+    builder and the structure resolver are the repository's code, evaluated on abstract structures."""
+    import re as _re
+    from sa import structmodel as _sm
+    from sa.e6 import ExternalObj as _EO, Interp as _I, Raised as _R, Unmodelled as _U
+    M = _sm.Model(P)
+    fdd = P.func(_sm.TRQ + "._build_ds_ds_binary")
+    fds = P.func(_sm.TRQ + "._build_ds_scalar_binary")
+    frs = P.func(_sm.SV + "._resolve_binop_structure")
+    dataset_kind = _I(P).eval(ast.parse("_DATASET", mode="eval").body, {}, frs)
+    n = 0
+    for label, op, both in (("DS_1 + DS_2 inside a comparison", "+", True), ("DS_1 > 1 inside not(...)", ">", False)):
+        left, right = M.ds("DS_1", ["Id_1"], ["Me_1"]), M.ds("DS_2", ["Id_1"], ["Me_1"])
+        out = M.ds("DS_r", ["Id_1"], ["bool_var"])
+        me = _sm.MTranspiler()
+        me.input_datasets = {"DS_1": left, "DS_2": right}
+        lnode, rnode = _sm.MNode("VarID", value="DS_1"), (_sm.MNode("VarID", value="DS_2") if both else _sm.MNode("Constant", value=1, type_="INTEGER_CONSTANT"))
+        ext = {"self._get_dataset_structure": lambda nd: {"DS_1": left, "DS_2": right}.get(getattr(nd, "value", None)), "self._get_dataset_sql": lambda nd: f'"{nd.value}"',
+               "self._get_output_dataset": lambda: out, "self._make_binary_expr": lambda a, b, o, *t: f"({a} {o} {b})", "quote_name": lambda x: f'"{x}"', "SQLBuilder": _sm.MBuilder,
+               "isinstance": _sm._isinstance, "get_current_registry": lambda: _EO({"rule_for": lambda c: None}), "self.visit": lambda nd: str(getattr(nd, "value", "?")),
+               "self._join_on_clause": lambda ids, a, b: " AND ".join(f'{a}."{i}" = {b}."{i}"' for i in ids) or "1=1"}
+        try:
+            if both:
+                b = _I(P, externals=ext, max_steps=40000).call(fdd, {"self": me, "left_node": lnode, "right_node": rnode, "op": op})
+            else:
+                b = _I(P, externals=ext, max_steps=40000).call(fds, {"self": me, "ds_node": lnode, "scalar_node": rnode, "op": op, "ds_on_left": True})
+        except (_R, _U) as e:
+            raise AnalysisError(f"{rule}: the SQL builder is outside the evaluator's language ({label}): {e}")
+        delivered = sorted(_re.findall(r'AS "([^"]+)"\s*$', c_)[0] for c_ in getattr(b, "cols", []) if _re.search(r'AS "([^"]+)"\s*$', c_))
+        node = _sm.MNode("BinOp", left=lnode, op=op, right=rnode)
+        ext_s = {"self._get_node_type": lambda nd: dataset_kind if getattr(nd, "_cls", "") == "VarID" else "Scalar", "self._get_dataset_structure": lambda nd: {"DS_1": left, "DS_2": right}.get(getattr(nd, "value", None)),
+                 "self._build_ds_ds_binop_structure": lambda nd: M.visitor_binary(left, right)[1], "self._build_boolean_result_structure": lambda d: M.ds(d.name, d.get_identifiers_names(), ["bool_var"]),
+                 "isinstance": _sm._isinstance}
+        try:
+            sv = _I(P, externals=ext_s, max_steps=40000).call(frs, {"self": _sm.MSelf(), "node": node})
+            resolved = sorted(sv.get_measures_names())
+        except (_R, _U) as e:
+            raise AnalysisError(f"{rule}: _resolve_binop_structure outside the evaluator's language ({label}): {e}")
+        n += 1
+        rep.instance(rule, f"intermediate-name/{label}", nontrivial=True, sample={"expression": label, "select_delivers": delivered, "structure_resolved_for_the_enclosing_operator": resolved})
+        if delivered != resolved:
+            rep.add(Finding(rule, f"{rule}/intermediate-name/{'ds-ds' if both else 'ds-scalar'}/{op}", (fdd if both else fds).module.rel, (fdd if both else fds).node.lineno, (fdd if both else fds).qualname,
+                            f"{label}: the sub-expression's SELECT delivers its measure as {delivered} (named after the measure of the WHOLE statement's result), the structure the enclosing "
+                            f"operator resolves for it says {resolved}: the enclosing operator references a column that does not exist and the valid script ends in a raw DuckDB BinderException"))
+    rep.floor(f"{rule} nested shapes", n, 2)
